@@ -159,21 +159,38 @@ def _int(s):
     return -int(s[1:], 16) if s.startswith("-") else int(s, 16)
 
 
+def _nf(v, w):
+    """the oracle's print of the integer v in normal form"""
+    m = abs(v)
+    used = max(1, (m.bit_length() + w - 1) // w)
+    return "%s%x:u%d" % ("-" if v < 0 else "", m, used)
+
+
 def matches_finding(f, r):
+    """a finding is one specific wrong behaviour (truncation toward zero where the header documents floor): the line is matched only if
+    the library returned exactly that value in normal form, so any other wrong answer on the same inputs is still a violation"""
     op, a = _args(r)
     pred = f.get("pred")
+    w = 8 if "w8" in r.get("cfg", "") else 64
+    got = r.get("got", "")
     try:
         if pred == "rsh_neg_inexact":        # magnitude shift of a negative operand with dropped bits
             if op == "bn_hlv":
                 v = _int(a[1])
-                return v < 0 and v % 2 != 0
+                return v < 0 and v % 2 != 0 and got == _nf(-(abs(v) >> 1), w)
             if op == "bn_rsh":
                 v, k = _int(a[1]), int(a[2])
-                return v < 0 and v % (1 << k) != 0
+                return v < 0 and v % (1 << k) != 0 and got == _nf(-(abs(v) >> k), w)
         if pred == "div_dig_neg_inexact":    # single-digit division of a negative operand, inexact
             if op in ("bn_div_dig", "bn_div_rem_dig"):
                 d = int(a[2], 16)
-                return _int(a[1]) < 0 and d > 1 and _int(a[1]) % d != 0
+                v = _int(a[1])
+                if not (v < 0 and d > 1 and v % d != 0):
+                    return False
+                q = -(abs(v) // d)
+                if op == "bn_div_dig":
+                    return got == _nf(q, w)
+                return got == "%s %x" % (_nf(q, w), v % d)        # the remainder is the non-negative one (6ced643)
         if pred == "div_zero_by_neg":
             if op in ("bn_div_rem", "bn_div"):
                 return _int(a[1]) == 0 and _int(a[2]) < 0
